@@ -330,6 +330,40 @@ impl Number {
     }
 }
 
+impl Number {
+    /// The exact value of an exact number; None for floats.
+    fn to_big_rational(&self) -> Option<BigRational> {
+        match self {
+            Number::Fixnum(num) => Some(BigRational::from_integer(BigInt::from(*num))),
+            Number::BigInt(num) => Some(BigRational::from_integer((**num).clone())),
+            Number::Rational(num) => Some(BigRational::new(
+                BigInt::from(*num.numer()),
+                BigInt::from(*num.denom()),
+            )),
+            Number::Float(_) => None,
+        }
+    }
+
+    /// Compare an exact number with a float by value: the float is
+    /// converted exactly, never the exact number rounded. NaN compares
+    /// to nothing.
+    fn cmp_exact_with_float(&self, rhs: f64) -> Option<Ordering> {
+        if rhs.is_nan() {
+            return None;
+        }
+        if rhs.is_infinite() {
+            return Some(if rhs > 0.0 {
+                Ordering::Less
+            } else {
+                Ordering::Greater
+            });
+        }
+        let lhs = self.to_big_rational()?;
+        let rhs = BigRational::from_float(rhs)?;
+        lhs.partial_cmp(&rhs)
+    }
+}
+
 impl Eq for Number {}
 impl PartialEq for Number {
     fn eq(&self, rhs: &Self) -> bool {
@@ -337,7 +371,7 @@ impl PartialEq for Number {
             Number::Fixnum(lhs) => match rhs {
                 Number::Fixnum(rhs) => lhs == rhs,
                 Number::BigInt(rhs) => BigInt::from(*lhs) == **rhs,
-                Number::Float(rhs) => *lhs as f64 == *rhs,
+                Number::Float(rhs) => self.cmp_exact_with_float(*rhs) == Some(Ordering::Equal),
                 Number::Rational(rhs) => {
                     if lhs.to_i32().is_some() {
                         Rational32::from_integer(*lhs as i32) == *rhs
@@ -349,20 +383,17 @@ impl PartialEq for Number {
             Number::BigInt(lhs) => match rhs {
                 Number::Fixnum(rhs) => **lhs == BigInt::from(*rhs),
                 Number::BigInt(rhs) => lhs == rhs,
-                Number::Float(rhs) => lhs.to_f64().unwrap() == *rhs,
+                Number::Float(rhs) => self.cmp_exact_with_float(*rhs) == Some(Ordering::Equal),
                 Number::Rational(rhs) => match lhs.to_i32() {
                     Some(lhs) => Rational32::from_integer(lhs) == *rhs,
                     None => false,
                 },
             },
             Number::Float(lhs) => match rhs {
-                Number::Fixnum(rhs) => *lhs == *rhs as f64,
                 Number::Float(rhs) => lhs == rhs,
-                Number::BigInt(rhs) => *lhs == rhs.to_f64().unwrap(),
-                Number::Rational(rhs) => match rhs.to_f64() {
-                    Some(rhs) => *lhs == rhs,
-                    None => false,
-                },
+                Number::Fixnum(_) | Number::BigInt(_) | Number::Rational(_) => {
+                    rhs.cmp_exact_with_float(*lhs) == Some(Ordering::Equal)
+                }
             },
             Number::Rational(lhs) => match rhs {
                 Number::Fixnum(rhs) => {
@@ -372,10 +403,7 @@ impl PartialEq for Number {
                         false
                     }
                 }
-                Number::Float(rhs) => match lhs.to_f64() {
-                    Some(lhs) => lhs == *rhs,
-                    None => false,
-                },
+                Number::Float(rhs) => self.cmp_exact_with_float(*rhs) == Some(Ordering::Equal),
                 Number::BigInt(rhs) => match rhs.to_i32() {
                     Some(rhs) => *lhs == Rational32::from_integer(rhs),
                     None => false,
@@ -392,10 +420,13 @@ impl PartialOrd for Number {
             Number::Fixnum(lhs) => match rhs {
                 Number::Fixnum(rhs) => lhs.partial_cmp(rhs),
                 Number::BigInt(rhs) => BigInt::from(*lhs).partial_cmp(&**rhs),
-                Number::Float(rhs) => (*lhs as f64).partial_cmp(rhs),
+                Number::Float(rhs) => self.cmp_exact_with_float(*rhs),
                 Number::Rational(rhs) => {
                     if lhs.to_i32().is_some() {
                         Rational32::from_integer(*lhs as i32).partial_cmp(rhs)
+                    } else if *lhs < 0 {
+                        // below every 32 bit rational
+                        Some(Ordering::Less)
                     } else {
                         Some(Ordering::Greater)
                     }
@@ -404,29 +435,34 @@ impl PartialOrd for Number {
             Number::BigInt(lhs) => match rhs {
                 Number::Fixnum(rhs) => (**lhs).partial_cmp(&BigInt::from(*rhs)),
                 Number::BigInt(rhs) => (**lhs).partial_cmp(&**rhs),
-                Number::Float(rhs) => (**lhs).to_f64().unwrap().partial_cmp(rhs),
+                Number::Float(rhs) => self.cmp_exact_with_float(*rhs),
                 Number::Rational(rhs) => match lhs.to_i32() {
                     Some(lhs) => Rational32::from_integer(lhs).partial_cmp(rhs),
+                    None if lhs.is_negative() => Some(Ordering::Less),
                     None => Some(Ordering::Greater),
                 },
             },
             Number::Float(lhs) => match rhs {
-                Number::Fixnum(rhs) => lhs.partial_cmp(&(*rhs as f64)),
                 Number::Float(rhs) => lhs.partial_cmp(rhs),
-                Number::BigInt(rhs) => lhs.partial_cmp(&(**rhs).to_f64().unwrap()),
-                Number::Rational(rhs) => lhs.partial_cmp(&rhs.to_f64().unwrap()),
+                Number::Fixnum(_) | Number::BigInt(_) | Number::Rational(_) => {
+                    rhs.cmp_exact_with_float(*lhs).map(Ordering::reverse)
+                }
             },
             Number::Rational(lhs) => match rhs {
                 Number::Fixnum(rhs) => {
                     if rhs.to_i32().is_some() {
                         lhs.partial_cmp(&Rational32::from_integer(*rhs as i32))
+                    } else if *rhs < 0 {
+                        // above every integer below the 32 bit range
+                        Some(Ordering::Greater)
                     } else {
                         Some(Ordering::Less)
                     }
                 }
-                Number::Float(rhs) => lhs.to_f64().unwrap().partial_cmp(rhs),
+                Number::Float(rhs) => self.cmp_exact_with_float(*rhs),
                 Number::BigInt(rhs) => match rhs.to_i32() {
                     Some(rhs) => lhs.partial_cmp(&Rational32::from_integer(rhs)),
+                    None if rhs.is_negative() => Some(Ordering::Greater),
                     None => Some(Ordering::Less),
                 },
                 Number::Rational(rhs) => lhs.partial_cmp(rhs),
